@@ -572,9 +572,10 @@ class Store:
 
     def _apply_subschema_config(self, subschema):
         """Merge a new subschema config with the current subschema."""
+        # (a copy: the declaring process keeps its schema to itself)
         self.subschema = deep_merge(
             self.subschema,
-            subschema)
+            deep_copy_internal(subschema))
 
     def _apply_config(self, config, source=None):
         """
